@@ -229,7 +229,7 @@ static int32_t janet_asm_addenv(JanetAssembler *a, Janet envname) {
     envindex = def->environments_length;
     janet_table_put(&a->envs, envname, janet_wrap_number(envindex));
     if (envindex >= a->environments_capacity) {
-        int32_t newcap = 2 * envindex;
+        int32_t newcap = 2 * envindex + 2; /* (2 * 0 would allocate nothing for the first one) */
         def->environments = janet_realloc(def->environments, newcap * sizeof(int32_t));
         if (NULL == def->environments) {
             JANET_OUT_OF_MEMORY;
